@@ -53,11 +53,17 @@ def rand_names(rng, rules, exact=None):
             return rng.sample(pool, exact)
         x = rng.random()
         base = rng.sample(pool, min(exact, len(pool)))
+        full = (base + ["zz"] * exact)[:exact]
         if x < 0.4:
-            return (base + ["zz"] * exact)[:exact] if exact else []      # unknown name, right count
+            if full:
+                full[rng.randrange(len(full))] = "zz"                     # an unknown name, right count
+            return full
         if x < 0.7:
             return base[:-1] if base else ["zz"]                          # wrong count
-        return (base + base)[:exact]                                     # duplicates
+        if len(full) >= 2:
+            i, j = rng.sample(range(len(full)), 2)
+            full[i] = full[j]                                             # a repeated name, right count
+        return full
     x = rng.random()
     if not pool:
         return rng.choice([[], ["zz"]])
